@@ -6,6 +6,7 @@ package main
 import (
 	"fmt"
 	"go/types"
+	"math/bits"
 	"strings"
 )
 
@@ -26,13 +27,53 @@ func digitChar(x *Exec, d *Term) Value {
 	// d: 8-bit digit value 0..35
 	st := x.st
 	lt10 := st.Cmp(OpUlt, d, st.Const(8, 10))
-	return fromTerm(st.Ite(lt10, st.Bin(OpBvAdd, d, st.Const(8, '0')), st.Bin(OpBvAdd, d, st.Const(8, 'a'-10))))
+	c := st.Ite(lt10, st.Bin(OpBvAdd, d, st.Const(8, '0')), st.Bin(OpBvAdd, d, st.Const(8, 'a'-10)))
+	if c.op != OpConst {
+		// remembered so that digitOfChar(digitChar(d)) is d syntactically (valid because every caller
+		// has d < base <= 36 on the path)
+		x.ghost[fmt.Sprintf("$digitof:%d", c.id)] = d
+	}
+	return fromTerm(c)
+}
+
+// hornerWidth returns the bit width (>= 8) that holds every value of an L-digit numeral in the given
+// base, and base^L - 1; ok=false when that needs more than 63 bits.
+func hornerWidth(base uint64, L int) (w uint16, maxNum uint64, ok bool) {
+	p := uint64(1)
+	for i := 0; i < L; i++ {
+		if p > (uint64(1)<<63)/base {
+			return 0, 0, false
+		}
+		p *= base
+	}
+	w = uint16(bits.Len64(p - 1))
+	if w < 8 {
+		w = 8
+	}
+	return w, p - 1, true
+}
+
+// hornerStep is acc·base + d at the accumulator's width (d: 8-bit digit).
+func hornerStep(st *Store, acc *Term, base uint64, d *Term) *Term {
+	return st.Bin(OpBvAdd, st.Bin(OpBvMul, acc, st.Const(acc.w, base)), st.ZExt(d, acc.w-8))
 }
 
 // symFormatUint renders the unsigned value v (width w<=64) in the given base. The number of
 // digits is a decision point; for bases that are powers of two the digits are bit slices, for other
 // bases they are fresh variables tied to v by the Horner relation.
 func (x *Exec) symFormatUint(v *Term, base uint64) []Value {
+	// formatting is a function: the same term in the same base yields the same characters (and no
+	// second set of digit variables); the digit-count decisions are replayed from the path condition
+	ckey := fmt.Sprintf("$fmtuint:%d:%d", v.id, base)
+	if c, ok := x.ghost[ckey]; ok {
+		return append([]Value(nil), c.([]Value)...)
+	}
+	out := x.symFormatUint1(v, base)
+	x.ghost[ckey] = append([]Value(nil), out...)
+	return out
+}
+
+func (x *Exec) symFormatUint1(v *Term, base uint64) []Value {
 	st := x.st
 	w := v.w
 	maxv := mask(w)
@@ -77,38 +118,44 @@ func (x *Exec) symFormatUint(v *Term, base uint64) []Value {
 		}
 		return out
 	}
-	// Fresh digit characters, most significant first. The value relation is stated with exactly
-	// the digit expression and Horner shape that the ParseUint summary builds (64-bit), so that
-	// parse(format(v)) is syntactically v's Horner form.
+	// Fresh digits, most significant first; the characters are digitChar(digit). The value relation
+	// is stated with exactly the Horner shape (and width) that the ParseUint summary builds for a
+	// numeral of L characters, so that parse(format(v)) is syntactically the term equated with v.
 	k := x.seq["$fmtdigits"]
 	x.seq["$fmtdigits"] = k + 1
 	v64 := st.ZExt(v, 64-w)
-	acc := st.Const(64, 0)
-	for i := 0; i < L; i++ {
-		c := st.Var(fmt.Sprintf("$digitchar%d.%d", k, i), 8)
-		d := x.digitOfChar(c)
-		x.addPC(st.Cmp(OpUlt, d, st.Const(8, base)))
-		// canonical characters: '0'-'9' then lower-case letters
-		x.addPC(st.Or(st.And(st.Cmp(OpUle, st.Const(8, '0'), c), st.Cmp(OpUle, c, st.Const(8, '9'))),
-			st.And(st.Cmp(OpUle, st.Const(8, 'a'), c), st.Cmp(OpUle, c, st.Const(8, 'z')))))
-		if i == 0 && L > 1 {
-			x.addPC(st.Not(st.Eq(c, st.Const(8, '0'))))
-		}
-		// exact integer arithmetic: neither the multiplication nor the addition wraps
-		x.addPC(st.Cmp(OpUle, acc, st.Const(64, ^uint64(0)/base)))
-		prod := st.Bin(OpBvMul, acc, st.Const(64, base))
-		acc = st.Bin(OpBvAdd, prod, st.ZExt(d, 56))
-		x.addPC(st.Cmp(OpUle, prod, acc))
-		x.addPC(st.Cmp(OpUle, acc, v64))
-		out[i] = fromTerm(c)
+	hw, _, narrow := hornerWidth(base, L)
+	if !narrow {
+		hw = 64 // only L = 20 decimal digits of a 64-bit value and the like
 	}
-	x.addPC(st.Eq(acc, v64))
+	acc := st.Const(hw, 0)
+	for i := 0; i < L; i++ {
+		d := st.Var(fmt.Sprintf("$digit%d.%d", k, i), 8)
+		x.addPC(st.Cmp(OpUlt, d, st.Const(8, base)))
+		if i == 0 && L > 1 {
+			x.addPC(st.Not(st.Eq(d, st.Const(8, 0))))
+		}
+		if !narrow {
+			// exact integer arithmetic: neither the multiplication nor the addition wraps
+			x.addPC(st.Cmp(OpUle, acc, st.Const(64, ^uint64(0)/base)))
+			next := hornerStep(st, acc, base, d)
+			x.addPC(st.Cmp(OpUle, st.Bin(OpBvMul, acc, st.Const(64, base)), next))
+			acc = next
+		} else {
+			acc = hornerStep(st, acc, base, d)
+		}
+		out[i] = digitChar(x, d)
+	}
+	x.addPC(st.Eq(st.ZExt(acc, 64-hw), v64))
 	return out
 }
 
 // digitOfChar is the digit value of a character as strconv.ParseUint computes it (255 = invalid).
 func (x *Exec) digitOfChar(c *Term) *Term {
 	st := x.st
+	if d, ok := x.ghost[fmt.Sprintf("$digitof:%d", c.id)]; ok {
+		return d.(*Term)
+	}
 	isDig := st.And(st.Cmp(OpUle, st.Const(8, '0'), c), st.Cmp(OpUle, c, st.Const(8, '9')))
 	lower := st.Bin(OpBvOr, c, st.Const(8, 0x20))
 	isLet := st.And(st.Cmp(OpUle, st.Const(8, 'a'), lower), st.Cmp(OpUle, lower, st.Const(8, 'z')))
@@ -369,27 +416,51 @@ func (x *Exec) symParseUint(fr *frame, s *SymStr, base int, bitSize int) Value {
 		x.unsupported("strconv.ParseUint summary: base %d bitSize %d", base, bitSize)
 	}
 	maxVal := mask(uint16(bitSize))
-	cutoff := ^uint64(0)/uint64(base) + 1
-	allValid := st.Bool(true)
-	over := st.Bool(false)
-	n := st.Const(64, 0)
+	ub := uint64(base)
+	allValid := st.Bool(true)    // every character is a digit of the base
+	over := st.Bool(false)       // the value read so far exceeds maxVal (or wrapped)
+	rangeFirst := st.Bool(false) // an overflow is detected before the first invalid character
+	var n *Term
+	hw, maxNum, narrow := hornerWidth(ub, len(s.b))
+	if narrow {
+		// numerals of this length cannot wrap at width hw: plain Horner form, overflow = "> maxVal"
+		n = st.Const(hw, 0)
+	} else {
+		n = st.Const(64, 0)
+	}
+	cutoff := ^uint64(0)/ub + 1
 	for _, cv := range s.b {
 		c := x.toTerm(cv, 8)
 		d := x.digitOfChar(c)
-		allValid = st.And(allValid, st.Cmp(OpUlt, d, st.Const(8, uint64(base))))
-		over = st.Or(over, st.Cmp(OpUle, st.Const(64, cutoff), n))
-		n = st.Bin(OpBvMul, n, st.Const(64, uint64(base)))
-		n1 := st.Bin(OpBvAdd, n, st.ZExt(d, 56))
-		over = st.Or(over, st.Or(st.Cmp(OpUlt, n1, n), st.Cmp(OpUlt, st.Const(64, maxVal), n1)))
-		n = n1
+		valid := st.Cmp(OpUlt, d, st.Const(8, ub))
+		if !x.pcSet[valid.id] { // digits produced by the Format summary are known to be valid
+			allValid = st.And(allValid, valid)
+		}
+		if narrow {
+			n = hornerStep(st, n, ub, d)
+			if maxVal < maxNum {
+				over = st.Cmp(OpUlt, st.Const(hw, maxVal), n) // monotone: the last comparison subsumes the earlier ones
+			}
+		} else {
+			over = st.Or(over, st.Cmp(OpUle, st.Const(64, cutoff), n))
+			prod := st.Bin(OpBvMul, n, st.Const(64, ub))
+			n1 := st.Bin(OpBvAdd, prod, st.ZExt(d, 56))
+			over = st.Or(over, st.Or(st.Cmp(OpUlt, n1, prod), st.Cmp(OpUlt, st.Const(64, maxVal), n1)))
+			n = n1
+		}
+		rangeFirst = st.Or(rangeFirst, st.And(allValid, over))
 	}
-	if !x.branch(allValid) {
+	if x.branch(st.Not(allValid)) {
+		// strconv reports whichever comes first in the string
+		if x.branch(rangeFirst) {
+			return numErr("ErrRange", maxVal)
+		}
 		return numErr("ErrSyntax", uint64(0))
 	}
 	if x.branch(over) {
 		return numErr("ErrRange", maxVal)
 	}
-	return Tuple{fromTerm(n), Iface{}}
+	return Tuple{fromTerm(st.ZExt(n, 64-n.w)), Iface{}}
 }
 
 func init() {
